@@ -538,6 +538,47 @@ pub fn c08range() -> bool {
             }
         }
     }
+    drop(replica);
+    store.close_replica(mid);
+    // an EMPTY document whose id sorts before / between / after the filled ones: its first key is the default id, its whole range
+    // and every fingerprint are empty (nothing of a neighbouring document shows through)
+    for b in [1u8, 2, 3, 250, 251, 252] {
+        let d = NamespaceSecret::from_bytes(&[b; 32]);
+        let _ = store.new_replica(d.clone()).unwrap();
+        let mut r = store.open_replica(&d.id()).unwrap();
+        let first = r.store.get_first().unwrap();
+        let dflt = RecordIdentifier::default();
+        let n_all = r.store.get_range(Range::new(dflt.clone(), dflt.clone())).unwrap().count();
+        let fp = r.store.get_fingerprint(&Range::new(dflt.clone(), dflt.clone())).unwrap();
+        if first != dflt || n_all != 0 || fp != crate::ranger::Fingerprint::empty() {
+            if !bad {
+                eprintln!("c08range: an empty document (seed {b}) next to filled ones: get_first is the default id: {}, entries in its whole range: {n_all}, empty fingerprint: {}", first == dflt, fp == crate::ranger::Fingerprint::empty());
+            }
+            bad = true;
+        }
+        drop(r);
+        store.close_replica(d.id());
+    }
+    // a document is asked for its whole-range fingerprint, removed, re-created: the fingerprint of the new (empty) document is the
+    // empty one (nothing computed for the old contents may be answered again)
+    {
+        let d = docs[0].clone();
+        let dflt = RecordIdentifier::default();
+        let mut r = store.open_replica(&d.id()).unwrap();
+        let before = r.store.get_fingerprint(&Range::new(dflt.clone(), dflt.clone())).unwrap();
+        drop(r);
+        store.close_replica(d.id());
+        store.remove_replica(&d.id()).unwrap();
+        let _ = store.new_replica(d.clone()).unwrap();
+        let mut r = store.open_replica(&d.id()).unwrap();
+        let after = r.store.get_fingerprint(&Range::new(dflt.clone(), dflt.clone())).unwrap();
+        drop(r);
+        store.close_replica(d.id());
+        if before == crate::ranger::Fingerprint::empty() || after != crate::ranger::Fingerprint::empty() {
+            eprintln!("c08range: whole-range fingerprint of a removed and re-created (empty) document: empty before removal: {}, empty afterwards: {}", before == crate::ranger::Fingerprint::empty(), after == crate::ranger::Fingerprint::empty());
+            bad = true;
+        }
+    }
     eprintln!("c08range: {n} ranges over {} ids compared; mismatch: {bad}", ids.len());
     bad
 }
@@ -665,6 +706,14 @@ pub fn c03clock() -> bool {
         }
     }
     bad
+}
+
+/// constants of the real build, by name
+pub fn constant(name: &str) -> Option<u64> {
+    Some(match name {
+        "PEERS_PER_DOC_CACHE_SIZE" => crate::store::PEERS_PER_DOC_CACHE_SIZE.get() as u64,
+        _ => return None,
+    })
 }
 
 pub fn run(id: &str) -> Option<bool> {
